@@ -256,4 +256,31 @@ __CPROVER_ensures(__CPROVER_return_value != NULL ==>
      __CPROVER_is_fresh(__CPROVER_return_value->banks_percussive, (size_t)__CPROVER_return_value->banks_count_percussion * sizeof(WOPNBank))))
 ;
 
+
+/* WOPN_Free at call sites inside the bank loader's error paths: frame-only summary (it releases the file the loader
+ * itself allocated and touches nothing else).  Used with --replace-call-with-contract in the segment groups. */
+void WOPN_Free(WOPNFile *file)
+__CPROVER_requires(1)
+__CPROVER_assigns()
+__CPROVER_ensures(1);
+
+/* size of a bank file as the saver lays it out: header (16 bytes, 18 with the version field of version >= 2),
+ * 34 bytes of name/LSB/MSB per bank for version >= 2, 128 records of 65 (69 for version >= 2) bytes per bank */
+#define SPEC_BANK_HDR(v) ((v) > 1 ? (size_t)18 : (size_t)16)
+#define SPEC_BANK_NAMES(v, m, p) ((v) >= 2 ? (size_t)34 * ((size_t)(m) + (size_t)(p)) : (size_t)0)
+#define SPEC_BANK_INS(v, n128) ((v) >= 2 ? (size_t)69 * (size_t)(n128) : (size_t)65 * (size_t)(n128))
+#define SPEC_BANK_TOTAL(v, m, p) (SPEC_BANK_HDR(v) + SPEC_BANK_NAMES(v, m, p) + SPEC_BANK_INS(v, 128 * ((size_t)(m) + (size_t)(p))))
+
+size_t WOPN_CalculateBankFileSize(WOPNFile *file, uint16_t version)
+__CPROVER_requires(file == NULL || __CPROVER_is_fresh(file, sizeof(WOPNFile)))
+__CPROVER_assigns()
+/* the calculator always counts the 2-byte version field, so it reports 2 spare bytes for version 1: never less than
+ * what the saver writes */
+__CPROVER_ensures(file == NULL ==> __CPROVER_return_value == 0)
+__CPROVER_ensures(file != NULL ==> __CPROVER_return_value ==
+                  (size_t)18 + SPEC_BANK_NAMES(SPEC_VERSION_EFF(version), file->banks_count_melodic, file->banks_count_percussion) +
+                  SPEC_BANK_INS(SPEC_VERSION_EFF(version), 128 * ((size_t)file->banks_count_melodic + (size_t)file->banks_count_percussion)))
+__CPROVER_ensures(file != NULL ==> __CPROVER_return_value >=
+                  SPEC_BANK_TOTAL(SPEC_VERSION_EFF(version), file->banks_count_melodic, file->banks_count_percussion));
+
 #endif
